@@ -214,9 +214,46 @@ def _mesh_2d(check, proj, cls):
     nx, ny = A.sym("nx", positive=True), A.sym("ny", positive=True)
     lx, ly = A.sym("lx", positive=True), A.sym("ly", positive=True)
     it.np_hooks = {"builtin:slice": lambda args, kw: Family(A, it.lift(args[1]) - it.lift(args[0]), A.const(1), it.lift(args[0])),
-                   "arange": lambda args, kw: Family(A, it.lift(args[0]), A.const(1), A.const(0)),
+                   "arange": lambda args, kw: _arange(args, kw), "linspace": lambda args, kw: _linspace(args, kw), "meshgrid": lambda args, kw: _meshgrid(args, kw),
                    "repeat": lambda args, kw: ("repeat", it.lift(args[0]), it.lift(args[1])),
                    "full": lambda args, kw: ("repeat", it.lift(args[1]), it.lift(args[0]))}
+    # ---- cell centres: 1-D abscissae (count, first, step), meshgrid, flatten
+    from ..interp import ObjStub
+
+    class Grid1D:
+        def __init__(self, count, first, step):
+            self.count, self.first, self.step = count, first, step
+
+        def _fd_binop(self, op, other, reflected, interp):
+            o = interp.lift(other)
+            if isinstance(op, ast.Add):
+                return Grid1D(self.count, self.first + o, self.step)
+            if isinstance(op, ast.Sub) and not reflected:
+                return Grid1D(self.count, self.first - o, self.step)
+            if isinstance(op, ast.Mult):
+                return Grid1D(self.count, self.first * o, self.step * o)
+            raise AnalysisError("unsupported arithmetic on cell abscissae")
+
+    def _linspace(args, kw):
+        a, b, n = it.lift(args[0]), it.lift(args[1]), it.lift(args[2] if len(args) > 2 else kw.get("num"))
+        ep = args[3] if len(args) > 3 else kw.get("endpoint", True)
+        return Grid1D(n, a, (b - a) / (n if ep is False else n - 1))
+
+    def _arange(args, kw):
+        if len(args) == 1:
+            return Family(A, it.lift(args[0]), A.const(1), A.const(0))
+        e = AnalysisError("np.arange with a non-integer step in the 2D mesh")
+        e.violation = ("MESH2D-CENTRE", cls.qualname, "abscissae built by np.arange with non-integer arguments: the number of entries is ceil((stop-start)/step) evaluated in floating point, i.e. decided by rounding -- lx/(lx/nx) is not always nx (1/(1/49) = 49.00000000000001), so for some grids there are nx+1 abscissae, the last outside the domain, and (nx+1)*ny centres for nx*ny cells; np.linspace(0, lx, nx, endpoint=False) fixes the count",
+                       "float-arange-2d", {"C20", "C15", "C14", "C01"})
+        raise e
+
+    def _meshgrid(args, kw):
+        gx, gy = args[0], args[1]
+        if not (isinstance(gx, Grid1D) and isinstance(gy, Grid1D)) or kw.get("indexing", "xy") != "xy":
+            raise AnalysisError("np.meshgrid of unsupported operands")
+        mk = lambda which: ObjStub("meshgrid " + which, {"flatten": (lambda *a_, **k_: ("centres", which, gx, gy, "C")), "ravel": (lambda *a_, **k_: ("centres", which, gx, gy, "C")),
+                                                          "T": ObjStub("meshgrid %s transposed" % which, {"flatten": (lambda *a_, **k_: ("centres", which, gx, gy, "F")), "ravel": (lambda *a_, **k_: ("centres", which, gx, gy, "F"))})})
+        return [mk("x"), mk("y")]
     obj = SelfObj(cls, {})
     init = proj.resolve(cls, "__init__")
     given = {"nx": nx, "ny": ny, "lx": lx, "ly": ly}
@@ -236,6 +273,25 @@ def _mesh_2d(check, proj, cls):
         _decide(check, "MESH2D-VOL", q + ".vol", loc, A, vol[2], nx * ny, "one volume per cell (nx*ny)", key="volcount")
     else:
         check.undecided("MESH2D-VOL", q + ".vol", "vol() is not np.repeat(dx*dy, ncell) / np.full(ncell, dx*dy)", loc)
+    # cell centres: cell j*nx + i (row by row, x fastest -- the order of the data arrays) has centre ((i+1/2) lx/nx, (j+1/2) ly/ny)
+    cf = proj.resolve(cls, "centers")
+    if cf is not None:
+        try:
+            cen = it.call_function(cf, [obj])
+            okc = isinstance(cen, (list, tuple)) and len(cen) == 2 and all(isinstance(c_, tuple) and c_ and c_[0] == "centres" for c_ in cen)
+            if not okc:
+                check.undecided("MESH2D-CENTRE", q + ".centers", "centers() is not (xx.flatten(), yy.flatten()) of a meshgrid of two abscissa arrays", cf.loc())
+            else:
+                (_, wx, gx, gy, ox), (_, wy, gx2, gy2, oy) = cen
+                good = wx == "x" and wy == "y" and ox == "C" and oy == "C"
+                why = "" if good else "centers() returns (%s, %s) flattened in %s order, expected (x, y) row by row (x fastest)" % (wx, wy, ox)
+                for g_, n_, l_, nm_ in ((gx, nx, lx, "x"), (gy, ny, ly, "y")):
+                    if good and not (A.equal(g_.count, n_) and A.equal(g_.first, l_ / n_ / 2) and A.equal(g_.step, l_ / n_)):
+                        good = False
+                        why = "%s abscissae: %s entries starting at %s with step %s, expected %s entries (k + 1/2) * %s" % (nm_, A.show(g_.count), A.show(g_.first), A.show(g_.step), A.show(n_), A.show(l_ / n_))
+                check.record("MESH2D-CENTRE", q + ".centers", good, "cell j*nx + i has centre ((i + 1/2) lx/nx, (j + 1/2) ly/ny): nx*ny points, x fastest" if good else why, cf.loc(), key="centres")
+        except AnalysisError as e:
+            check.failed("MESH2D-CENTRE", q + ".centers", e, cf.loc(), "centers()")
     # boundary tables: layout  i-face(i,j) = j*(nx+1)+i ;  j-face(i,j) = ny*(nx+1) + j*nx + i
     io = at.get("_io_bcfaces")
     ori = at.get("_bcfaces_orientation")
